@@ -22,7 +22,10 @@ MANIFEST = dict(
          'no double underscore -- the unrestricted cpp statement is refuted by the witness `__x`, which the configured encoding '
          'rule ^_{2,} rewrites by design); type `all` raises ValueError; the lru_cache is transparent; for ANY configuration satisfying the computed '
          'side condition chk_sound the soundness statement holds, and it is refuted for an override that reserves a handler-shaped '
-         'name (known finding F-STROP-HANDLER-UNVERIFIED). The theorems are generic in '
+         'name (known finding F-STROP-HANDLER-UNVERIFIED); in a tree whose strop re-verifies its result (recognised by T1) the '
+         'statement holds for every configuration with the validity conditions only (strop_sound_any_config), and '
+         'strop_override_state says which case is live now; Python\'s reserved list covers keyword.kwlist+dir(builtins) of the '
+         'interpreter; results do not depend on other Language objects of the process (tested, not proved). The theorems are generic in '
          'the configuration record and applied to Generated/Gen_Strop.v through boolean side conditions evaluated by vm_compute, so '
          'an edit to properties.yaml, the reserved lists or the failure handlers re-runs the proofs on the new data. Tie: T1 '
          'regenerates the configuration from the TokenEncoder instances of the working tree and recognises the handler source with '
@@ -64,6 +67,10 @@ class Oracle:
                 'reserved': set(w for w in c['reserved'] if isinstance(w, str)),
                 'patterns': {k: [re.compile(p[0]) for p in v] for k, v in c['patterns'].items()},
             }
+        # independent of nunavut.lang.py: keywords and builtins of the interpreter that runs nunavut (computed by the harness)
+        self.interpreter_reserved = set(dump.get('py_kw_builtins', []))
+        if 'py' in self.cfg:
+            self.cfg['py']['reserved'] |= self.interpreter_reserved
 
     def pattern_hit(self, ln: str, ty: str, t: str) -> bool:
         pm = self.cfg[ln]['patterns']
@@ -167,7 +174,13 @@ def gen_cases(chk: core.Check, dump: dict) -> typing.Tuple[list, dict]:
             add('exhaustive_len_%d_type_any' % (max_all + 1), ln, 'any', s)
     for ln in LANGS:
         c = dump['langs'][ln]
-        words = sorted(set(w for w in c['reserved'] if isinstance(w, str)))
+        words = set(w for w in c['reserved'] if isinstance(w, str))
+        if ln == 'py':
+            words |= set(dump.get('py_kw_builtins', []))   # the interpreter's own table, whatever nunavut.lang.py says
+        words = sorted(words)
+        for w in words:                                    # every reserved word verbatim, for every type
+            for ty in TYPES:
+                add('reserved_words_verbatim', ln, ty, w)
         for w in words:
             for v in variants(w, c):
                 for ty in (TYPES if not quick else ['any', 'macro', 'function']):
@@ -256,6 +269,9 @@ def main(chk: core.Check, replay: typing.Optional[str] = None) -> int:
                        'broken': broken, 'translators': res.translator_msgs}, found_input=False)
         return chk.finish()
     oracle = Oracle(dump)
+    missing = sorted(oracle.interpreter_reserved - set(w for w in dump['langs']['py']['reserved'] if isinstance(w, str)))
+    if missing:
+        broken.append('Python reserved list lacks keywords/builtins of the interpreter: %s' % ', '.join(missing[:12]))
 
     if replay:
         doc = json.load(open(replay))
@@ -306,6 +322,10 @@ def main(chk: core.Check, replay: typing.Optional[str] = None) -> int:
         if other[j] != impl[i]:
             bad_det.append((i, 'another process (PYTHONHASHSEED differs) returned %r' % other[j]))
 
+    # several Language objects with different configurations in ONE process (both creation orders, two usage patterns):
+    # each object must answer as a process that only ever created that one object
+    iso_bad = isolation_runs(stats)
+
     # known finding: probe its witness on the implementation (every run, both tiers)
     FID = 'F-STROP-HANDLER-UNVERIFIED'
     if chk.known_entry(FID) is None:   # fragment not merged into known_findings.json yet: read the committed fragment
@@ -320,6 +340,9 @@ def main(chk: core.Check, replay: typing.Optional[str] = None) -> int:
         if kf_live:
             chk.report_known(FID)
     stats['known_finding_live'] = kf_live
+    stats['strop_reverifies_final_token'] = any('strop_reverifies : bool := true' in l for l in open(
+        os.path.join(core.COQ, 'theories', 'Generated', 'Gen_Strop.v'), encoding='utf-8')) if res.translators_ok else None
+    stats['py_reserved_missing_from_interpreter_table'] = missing
     stats['known_finding_instances'] = 0
 
     def handler_shaped(ln: str, t: str) -> bool:
@@ -353,7 +376,8 @@ def main(chk: core.Check, replay: typing.Optional[str] = None) -> int:
     chk.coverage.update({
         'evaluations': len(cases), 'distinct_nontrivial': len(distinct),
         'rule': 'all strings up to length %d over the 12-symbol alphabet %r x 6 id types x {c,cpp,py} (one more length for type any), '
-                'every reserved word of each language with 19 prefixed/suffixed/cased variants, strings provoking each reserved '
+                'every reserved word of each language (for py also keyword.kwlist+dir(builtins) of the interpreter) verbatim x all '
+                'types and with 19 prefixed/suffixed/cased variants, strings provoking each reserved '
                 'pattern, odd id types (ALL, Macro, unknown), seeded random longer strings; non-trivial = distinct (language, '
                 'lower-cased type, string) on which the model took a non-default branch (encoding changed the token, keyword or '
                 'pattern stropping fired, a failure handler produced the result, or an error was raised), measured by the '
@@ -369,7 +393,9 @@ def main(chk: core.Check, replay: typing.Optional[str] = None) -> int:
         return oracle.judge(c[0], c[1], c[2], o[0]) is not None
 
     real_bad = [b for b in bad_oracle if b[0] >= 0]
-    if real_bad:
+    if iso_bad and not real_bad:
+        chk.violation(dict(iso_bad[0], n_failing=len(iso_bad), broken=broken), found_input=True)
+    elif real_bad:
         i, why = real_bad[0]
         small = shrink(cases[i], impl_violates)
         chk.violation({'case': small, 'original_case': cases[i], 'what': why, 'implementation': run_impl([small])[0][0],
@@ -390,6 +416,45 @@ def main(chk: core.Check, replay: typing.Optional[str] = None) -> int:
                        'what': 'proof obligation or model build no longer checks; searched %d cases on the implementation with the '
                                'property oracle, none violates it' % len(cases)}, found_input=False)
     return chk.finish()
+
+
+ISO_CONFIGS = [None, {'stropping_prefix': '_pre_', 'stropping_suffix': '_post_'}, {'reserved_identifiers': ['foo', 'qz_7']},
+               {'encoding_prefix': '_u'}]
+ISO_CASES = [['any', 'if'], ['any', 'foo'], ['any', 'qz_7'], ['any', 'a b'], ['any', '1x'], ['any', 'é'], ['macro', 'EFOO'],
+             ['any', '_Ab'], ['any', 'None'], ['typedef', 'int8_t']]
+
+
+def isolation_runs(stats: dict) -> typing.List[dict]:
+    bad = []
+    n = 0
+    for ln in LANGS:
+        ref = {}
+        for ci, ov in enumerate(ISO_CONFIGS):
+            ref[ci], _ = run_impl([[ln, ty, s] for ty, s in ISO_CASES], overrides=ov)
+        pairs = [(0, 1), (1, 0), (2, 3), (3, 2), (0, 2), (2, 0), (1, 1)]
+        for mode in ('create_all_first', 'interleaved'):
+            for a, b in pairs:
+                doc = {'objects': [{'lang': ln, 'overrides': ISO_CONFIGS[a]}, {'lang': ln, 'overrides': ISO_CONFIGS[b]}],
+                       'cases': ISO_CASES, 'mode': mode}
+                p = core.run([core.PY, HARNESS, 'multi'], input=json.dumps(doc), env=core.repo_env(), timeout=600)
+                try:
+                    d = json.loads(p.stdout[p.stdout.index('{"multi"'):])
+                except Exception:
+                    bad.append({'what': 'multi-object harness failed: ' + p.stdout[-300:], 'objects': doc['objects']})
+                    continue
+                for which, res in (('first use', d['multi']), ('used again', d['again'])):
+                    for oi, ci in enumerate((a, b)):
+                        for k, (ty, s) in enumerate(ISO_CASES):
+                            n += 1
+                            if res[oi][k] != ref[ci][k]:
+                                bad.append({'what': 'the result of filter_id depends on another Language object created in the same '
+                                                    'process: object #%d (%s) of %r answered %r, a process with only that '
+                                                    'configuration answers %r' % (oi, which, mode, res[oi][k], ref[ci][k]),
+                                            'case': [ln, ty, s], 'objects': doc['objects'], 'mode': mode, 'object_index': oi,
+                                            'implementation': res[oi][k], 'expected': ref[ci][k]})
+    stats['multi_object_comparisons'] = n
+    stats['multi_object_disagreements'] = len(bad)
+    return bad
 
 
 def dump_config_overrides(ov: dict) -> typing.Optional[dict]:
